@@ -516,10 +516,9 @@ def run(ctx):
     present = replay_witnesses(ctx)
     if present is None:
         return
-    orig = 'dfs' in present      # the tree under test still has the visited-set dfs => compare with Orig model
     if present:
-        ctx.log('implementation still shows the refuted behaviour (%s): fixes/C34-dfs-order.diff is not applied; '
-                'correspondence is run against the %s model' % (', '.join(sorted(present)), 'Orig' if orig else 'fixed'))
+        ctx.log('implementation shows the refuted behaviour (%s): fixes/C34-dfs-order.diff is not applied or has regressed'
+                % ', '.join(sorted(present)))
     deep = (not ctx.quick()) or bool(ctx.failed_stages)
     res = run_worker(ctx, 'main', families_for(ctx, deep), 0)
     if res is None:
@@ -564,18 +563,30 @@ def run(ctx):
                 recs.append(r)
     for r in recs[:: max(1, len(recs) // 8)]:
         ctx.note_sample({'graph': dict((n, ds) for n, ds in r['g']), 'targets': r['req'], 'default': r['dflt'], 'impl': r['out'][:2]})
-    cases, members = build_cases(recs, orig)
+    cases, members = build_cases(recs, False)
     ctx.cov['stages']['correspondence_cases'] = len(recs)
     ctx.cov['stages']['correspondence_coq_terms'] = len(cases)
-    ctx.cov['stages']['correspondence_model'] = 'Model.Tasks.Orig.run' if orig else 'Model.Tasks.run'
+    ctx.cov['stages']['correspondence_model'] = 'Model.Tasks.run'
     ctx.cov['evaluations'] -= len(cases)          # run_cases counts terms; runs were counted per family above
     bad = run_cases_chunked(ctx, cases)
+    if bad and present:
+        # does the tree under test behave like the code before the fix?  (diagnostic; the violations above carry the inputs)
+        ocases, omembers = build_cases(recs, True)
+        ctx.cov['evaluations'] -= len(ocases)
+        obad = run_cases_chunked(ctx, ocases)
+        ctx.cov['stages']['correspondence_orig_model'] = {'terms': len(ocases), 'disagreeing': None if obad is None else len(obad)}
+        if obad == []:
+            ctx.log('the implementation agrees with Model.Tasks.Orig.run (the code before the fix) on all %d cases' % len(recs))
+            ctx.cov['stages']['correspondence_model'] = 'Model.Tasks.Orig.run'
+            ctx.failed_stages.append(('correspondence', 'implementation behaves as the pre-fix model Orig.run, not as Model.Tasks.run '
+                                      '(%d graph groups differ)' % len(bad)))
+            bad = []
     if bad:
         for i in bad[:3]:
             ctx.log('model/implementation disagree on one of:', [(m['g'], m['req'], m['dflt'], m['out'][:2]) for m in members[i]][:4])
         r = members[bad[0]][0]
-        ctx.failed_stages.append(('correspondence', '%s disagrees with ppci.build.tasks on %d graph groups, first group: graph=%r '
-                                  'default=%r' % ('Orig.run' if orig else 'run', len(bad), r['g'], r['dflt'])))
+        ctx.failed_stages.append(('correspondence', 'Model.Tasks.run disagrees with ppci.build.tasks on %d graph groups, first group: '
+                                  'graph=%r default=%r' % (len(bad), r['g'], r['dflt'])))
         if ctx.quick():
             # deep oracle sweep to look for a concrete failing input
             res3 = run_worker(ctx, 'deep', [{'kind': 'labelled', 'n': 4, 'loops': True, 'records': False,
